@@ -49,21 +49,23 @@ pub open spec fn acyclic() -> bool { forall|p: Ptr<Cell>, q: Ptr<Cell>| #[trigge
 //@ item layout21raw/src/data.rs :: struct DepOrder
 //@   pubfields
 //@ end
+pub open spec fn deps_fn() -> spec_fn(Ptr<Cell>) -> Set<Ptr<Cell>> { |p: Ptr<Cell>| deps(p) }
 /// (A) functional correctness on acyclic libraries: duplicate-free, complete, dependencies-first
 impl<'lib> DepOrder<'lib> {
 //@ fn layout21raw/src/data.rs :: impl<'lib> DepOrder<'lib> :: fn order
 //@   ret r
 //@   spec
 //|         requires acyclic(), obeys_key_model::<Ptr<Cell>>(),
-//|         ensures is_dep_ordering(r@, lib.cells@, |p: Ptr<Cell>| deps(p)),
+//|         ensures is_dep_ordering(r@, lib.cells@, |p: Ptr<Cell>| deps(p)), only_reachable(r@, lib.cells@, deps_fn()),
 //@   before /for cell in myself\.lib\.cells\.iter\(\)/
 //|         proof { assert(myself.stack@.to_set() =~= Set::<Ptr<Cell>>::empty()); }
 //@   loop 1 iter it
 //|             invariant acyclic(), obeys_key_model::<Ptr<Cell>>(), myself.lib == lib, it.seq().len() == lib.cells@.len(), forall|k: int| 0 <= k < lib.cells@.len() ==> *(#[trigger] it.seq()[k]) == lib.cells@[k],
 //|                 inv_raw(myself.stack@, myself.seen@, Set::<Ptr<Cell>>::empty(), |p: Ptr<Cell>| deps(p)),
 //|                 forall|k: int| 0 <= k < it.index@ ==> myself.seen@.contains(#[trigger] lib.cells@[k]),
+//|                 forall|s: Set<Ptr<Cell>>, x: Ptr<Cell>| #[trigger] closed_under(s, deps_fn()) && covers(s, lib.cells@) && #[trigger] myself.seen@.contains(x) ==> s.contains(x),
 //@   before /myself\.push\(cell\);/
-//|             let ghost before = myself.stack@;
+//|             let ghost before = myself.stack@; let ghost seen1 = myself.seen@;
 //@   loopend 1
 //|             proof {
 //|                 assert forall|k: int| 0 <= k < it.index@ implies myself.seen@.contains(#[trigger] lib.cells@[k]) by {
@@ -72,9 +74,16 @@ impl<'lib> DepOrder<'lib> {
 //|                     assert(myself.stack@[idx] == lib.cells@[k]);
 //|                 }
 //|                 assert(*cell == lib.cells@[it.index@ as int]);
+//|                 assert forall|s: Set<Ptr<Cell>>, x: Ptr<Cell>| #[trigger] closed_under(s, deps_fn()) && covers(s, lib.cells@) && #[trigger] myself.seen@.contains(x) implies s.contains(x) by {
+//|                     assert(s.contains(lib.cells@[it.index@ as int]));
+//|                     if seen1.contains(x) { } else { }
+//|                 }
 //|             }
 //@   before /^        myself\.stack$/
 //|         proof {
+//|             assert forall|s: Set<Ptr<Cell>>, i: int| #[trigger] closed_under(s, deps_fn()) && covers(s, lib.cells@) && 0 <= i < myself.stack@.len() implies s.contains(#[trigger] myself.stack@[i]) by {
+//|                 assert(myself.stack@.contains(myself.stack@[i])); assert(myself.seen@.contains(myself.stack@[i]));
+//|             }
 //|             assert forall|k: int| 0 <= k < lib.cells@.len() implies myself.stack@.contains(#[trigger] lib.cells@[k]) by { assert(myself.seen@.contains(lib.cells@[k])); }
 //|         }
 //@ end
@@ -86,18 +95,25 @@ impl<'lib> DepOrder<'lib> {
 //|             old(self).stack@.is_prefix_of(final(self).stack@), final(self).seen@.contains(*ptr), final(self).lib == old(self).lib,
 //|             // only the cell and what it (transitively) depends on is added
 //|             forall|x: Ptr<Cell>| final(self).seen@.contains(x) && !old(self).seen@.contains(x) ==> rank(x) <= rank(*ptr),
+//|             // ... and nothing outside any dependency-closed set that holds the cell
+//|             forall|s: Set<Ptr<Cell>>, x: Ptr<Cell>| #[trigger] closed_under(s, deps_fn()) && s.contains(*ptr) && #[trigger] final(self).seen@.contains(x) && !old(self).seen@.contains(x) ==> s.contains(x),
 //|         decreases rank(*ptr),
 //@   loop 1 iter it
 //|                     invariant acyclic(), obeys_key_model::<Ptr<Cell>>(), self.lib == old(self).lib, *cell == pointee(*ptr), cell.layout == Some(*layout),
 //|                         inv_raw(self.stack@, self.seen@, Set::<Ptr<Cell>>::empty(), |p: Ptr<Cell>| deps(p)), old(self).stack@.is_prefix_of(self.stack@),
 //|                         !old(self).seen@.contains(*ptr),
 //|                         forall|x: Ptr<Cell>| self.seen@.contains(x) && !old(self).seen@.contains(x) ==> rank(x) < rank(*ptr),
+//|                         forall|s: Set<Ptr<Cell>>, x: Ptr<Cell>| #[trigger] closed_under(s, deps_fn()) && s.contains(*ptr) && #[trigger] self.seen@.contains(x) && !old(self).seen@.contains(x) ==> s.contains(x),
 //|                         forall|k: int| 0 <= k < it.index@ ==> self.seen@.contains(#[trigger] layout.insts@[k].cell),
 //@   before /self\.push\(&inst\.cell\);/
-//|                     let ghost before = self.stack@;
+//|                     let ghost before = self.stack@; let ghost seen0 = self.seen@;
 //|                     proof { assert(dep_seq(*layout)[it.index@ as int] == inst.cell); assert(dep_seq(*layout).contains(inst.cell)); assert(deps(*ptr).contains(inst.cell)); }
 //@   loopend 1
 //|                     proof {
+//|                         assert forall|s: Set<Ptr<Cell>>, x: Ptr<Cell>| #[trigger] closed_under(s, deps_fn()) && s.contains(*ptr) && #[trigger] self.seen@.contains(x) && !old(self).seen@.contains(x) implies s.contains(x) by {
+//|                             let d = deps_fn(); assert(d(*ptr).subset_of(s)); assert(s.contains(inst.cell));
+//|                             if seen0.contains(x) { } else { }
+//|                         }
 //|                         assert forall|k: int| 0 <= k < it.index@ implies self.seen@.contains(#[trigger] layout.insts@[k].cell) by {
 //|                             assert(before.contains(layout.insts@[k].cell));
 //|                             let idx = choose|q: int| 0 <= q < before.len() && before[q] == layout.insts@[k].cell;
